@@ -159,6 +159,35 @@ func GenNet(r *kit.Rand, tier kit.Tier, kinds ...string) Net {
 		nmsg = r.Range(1, 80)
 	}
 
+	// hot spot: a larger full mesh in which every tile streams multi-flit messages
+	// to one destination at the same time
+	if c.Kind == "mesh" && r.Chance(1, 8) {
+		c.Devs = nil
+		dims := [][3]int{{5, 4, 1}, {6, 3, 1}, {3, 3, 2}, {6, 6, 1}}[r.Intn(4)]
+
+		for x := 0; x < dims[0]; x++ {
+			for y := 0; y < dims[1]; y++ {
+				for z := 0; z < dims[2]; z++ {
+					c.Devs = append(c.Devs, Dev{Ports: 1, Buf: r.PickInt(1, 2, 4), Tile: [3]int{x, y, z}})
+				}
+			}
+		}
+
+		hot := r.Intn(len(c.Devs))
+
+		for round := 0; round < r.Range(1, 3); round++ {
+			for s := range c.Devs {
+				if s != hot {
+					c.Msgs = append(c.Msgs, TMsg{S: [2]int{s, 0}, D: [2]int{hot, 0}, Bytes: c.FlitSize * r.Range(3, 8)})
+				}
+			}
+		}
+
+		c.EventCap = 3000000
+
+		return c
+	}
+
 	classes := []string{"", "req", "memprotocol.ReadReq", "class with space"}
 	t := uint64(0)
 
